@@ -754,18 +754,37 @@ func (e *Engine) step(st *State, barrierOut *[]*State) []*State {
 				lim := uint64(e.allocMax + 1)
 				big := Cmp("bvugt", n, C(lim, n.W))
 				if al, ok := e.cfg.Params["alloc_limit"]; ok {
-					e.vc(st, "alloc", "allocation above alloc_limit in "+fr.fn.String(), Cmp("bvugt", n, C(uint64(al), n.W)))
+					n64 := n
+					if n.W < 64 {
+						if _, signed := width(x.Len.Type()); signed {
+							n64 = Sext(n, 64)
+						} else {
+							n64 = Zext(n, 64)
+						}
+					}
+					e.vc(st, "alloc", "allocation above alloc_limit in "+fr.fn.String(), Cmp("bvugt", n64, C(uint64(al), 64)))
 				}
 				if e.feasible(st, big) {
 					// lengths above alloc_max+1 are represented by alloc_max+1 (stated in the evidence)
 					e.bigAlloc++
 					small := Not(big)
 					if !e.feasible(st, small) {
-						return e.abort(st, "make length always above alloc_max in "+fr.fn.String())
+						// every feasible length is above alloc_max: follow one representative chosen by the solver
+						vals, _ := e.enumValues(st, n, 1)
+						if len(vals) != 1 || vals[0] > 1<<20 {
+							return e.abort(st, "make length always above alloc_max in "+fr.fn.String())
+						}
+						c := C(vals[0], n.W)
+						st.assume(Cmp("=", n, c))
+						fr.locals[x.Len] = c
+						continue
 					}
 					st.assume(small)
 				}
 				return e.concretize(st, x.Len, n, e.allocMax+3, "make length in "+fr.fn.String())
+			}
+			if al, ok := e.cfg.Params["alloc_limit"]; ok && int64(n.Val) > int64(al) {
+				e.vc(st, "alloc", "allocation above alloc_limit in "+fr.fn.String(), B(true))
 			}
 			if int64(n.Val) < 0 || n.Val > 1<<24 {
 				e.panicVC(st, "makeslice: len out of range in "+fr.fn.String(), B(true))
